@@ -10,6 +10,7 @@ package main
 
 import (
 	"fmt"
+	"go/token"
 	"go/types"
 	"sort"
 	"strings"
@@ -509,6 +510,7 @@ func ruleR44(c *Ctx) *RuleResult {
 				}
 			}
 		}
+		hits = append(hits, knownNilDerefs(p, fn)...)
 		for _, g := range gc.GCs {
 			check := func(t *Term) bool {
 				if (t.Op == "fa" || t.Op == "ia") && len(t.Args) >= 1 && t.Args[0].Op == "φ" && nilPhi[t.Args[0].String()] {
@@ -552,4 +554,70 @@ func ruleR44(c *Ctx) *RuleResult {
 		}
 	}
 	return r
+}
+
+// knownNilDerefs: a branch on `x == nil` / `x != nil` whose nil successor has no other predecessor; every block that successor
+// dominates runs knowing x is nil (x is an SSA value: it cannot change). A field or slot access through x there panics.
+func knownNilDerefs(p *Prog, fn *ssa.Function) []string {
+	var out []string
+	for _, b := range fn.Blocks {
+		if len(b.Instrs) == 0 {
+			continue
+		}
+		ifi, ok := b.Instrs[len(b.Instrs)-1].(*ssa.If)
+		if !ok {
+			continue
+		}
+		bin, ok := ifi.Cond.(*ssa.BinOp)
+		if !ok || (bin.Op != token.EQL && bin.Op != token.NEQ) {
+			continue
+		}
+		var x ssa.Value
+		isNilConst := func(v ssa.Value) bool {
+			c, ok := v.(*ssa.Const)
+			return ok && c.IsNil()
+		}
+		switch {
+		case isNilConst(bin.Y) && !isNilConst(bin.X):
+			x = bin.X
+		case isNilConst(bin.X) && !isNilConst(bin.Y):
+			x = bin.Y
+		default:
+			continue
+		}
+		if _, isPtr := x.Type().Underlying().(*types.Pointer); !isPtr {
+			continue
+		}
+		succ := b.Succs[0]
+		if bin.Op == token.NEQ {
+			succ = b.Succs[1]
+		}
+		if len(succ.Preds) != 1 || b.Succs[0] == b.Succs[1] {
+			continue
+		}
+		for _, d := range fn.Blocks {
+			if !succ.Dominates(d) {
+				continue
+			}
+			for _, in := range d.Instrs {
+				var base ssa.Value
+				switch y := in.(type) {
+				case *ssa.FieldAddr:
+					base = y.X
+				case *ssa.IndexAddr:
+					base = y.X
+				case *ssa.UnOp:
+					if y.Op == token.MUL {
+						base = y.X
+					}
+				case *ssa.Store:
+					base = y.Addr
+				}
+				if base == x {
+					out = append(out, fmt.Sprintf("%s: an access through %s on a branch that has just tested it and found it nil", p.InstrPos(in), x.Name()))
+				}
+			}
+		}
+	}
+	return out
 }
